@@ -17,7 +17,7 @@ from sa.term import Rat, Vec
 from sa.units import Unit
 from sa.witness import WitnessInterp, WitnessModel, items_of, sym_scalar
 
-from .common import eq_term, events, history_free, returns, show
+from .common import callee_receiving, eq_term, events, history_free, returns, show
 
 MOD = 'absorption.cylinder'
 FROZEN_DEGREE = {'disk12': (7, 1e-13), 'disk55': (17, 5e-7), 'disk256_cheb': (31, 1e-6)}
@@ -239,9 +239,9 @@ def fold_rule(repo, sfi, kind, ratio):
     cyl = witness_cylinder(wi, wm, repo, radius=F(1), height=ratio)
     k_, quad = call(wi, sfi, [kind], bound=cyl)
     if k_ != 'return':
-        return [f'_select_quadrature_points({kind!r}) raises {quad}'], {}
+        return [f'selecting the reference rule for {kind!r} raises {quad}'], {}
     if not isinstance(quad, dict) or not all(isinstance(quad.get(n), NumArr) for n in ('x', 'y', 'z', 'weights')):
-        raise AnalysisError(f'_select_quadrature_points({kind!r}): the numeric part could not be folded ({quad!r})'[:300])
+        raise AnalysisError(f'{sfi.fq}({kind!r}): the numeric part could not be folded ({quad!r})'[:300])
     x, y, z, w = (quad[n].a.copy() for n in ('x', 'y', 'z', 'weights'))
     probs = []
     # a second request in the same interpreter (same module state) must give the same rule
@@ -335,6 +335,10 @@ def run(tier: str) -> Run:
 
     # ---- R3 assembly ----------------------------------------------------------------------
     r3 = run.rule('R3', 'product rule assembly, scaling and translation; centre and volume', 5)
+    # the reference rule of the unit cylinder is chosen by the callee of Cylinder.quadrature that receives `kind`
+    select_fi = callee_receiving(repo, repo.func(MOD, 'Cylinder.quadrature'), 'kind')
+    if select_fi is None:
+        raise AnalysisError('Cylinder.quadrature hands its `kind` to no function of the package: the reference rule cannot be separated from its scaling')
     try:
         pfi = repo.func(MOD, '_cylinder_quadrature_from_product')
     except AnalysisError:
@@ -366,7 +370,7 @@ def run(tier: str) -> Run:
         wi = WitnessInterp(repo, wm)
         cyl = witness_cylinder(wi, wm, repo)
         q = {k: wm.array(wi, [sym_scalar(wi, wm, f'q{k}{i}', Unit(), F(1, 3 + i)) for i in range(2)], 'quad') for k in ('x', 'y', 'z', 'weights')}
-        wi.stubs[repo.func(MOD, 'Cylinder._select_quadrature_points').fq] = lambda interp, args, kwargs, bound, q=q: dict(q)
+        wi.stubs[select_fi.fq] = lambda interp, args, kwargs, bound, q=q: dict(q)
         outs = wi.run_all(lambda i, cyl=cyl: i.call_function(fi, ['cheap'], {}, bound=cyl))
         rets = [o for o in outs if o.kind == 'return']
         ok_any = False
@@ -409,7 +413,7 @@ def run(tier: str) -> Run:
         o = returns(run_kernel(repo, pf, {}, bound=cyl_bound(repo)))
         r3.check(len(o) == 1 and o[0].value.term is not None and eq_term(o[0].value.term, want_t()), prop, loc(pf),
                  {'computed': show(o[0].value) if o else None}, key=prop)
-    sfi = repo.func(MOD, 'Cylinder._select_quadrature_points')
+    sfi = select_fi
     for kind in ('cheap', 'medium', 'expensive'):
         for ratio in ((F(1, 10), F(1), F(4)) if tier != 'thorough' else (F(1, 100), F(1, 10), F(1), F(2), F(4), F(100))):
             probs, info = fold_rule(repo, sfi, kind, ratio)
@@ -572,6 +576,6 @@ def run(tier: str) -> Run:
 
     # ---- R6 ---------------------------------------------------------------------------------------
     r6 = run.rule('R6', 'quadrature / transmission code writes no module-level state and hands out no memoised arrays', 3)
-    history_free(repo, [repo.func(MOD, 'Cylinder.quadrature'), repo.func(MOD, 'Cylinder._select_quadrature_points'),
+    history_free(repo, [repo.func(MOD, 'Cylinder.quadrature'), select_fi,
                         repo.func(bmod, 'compute_transmission_map')], r6)
     return run
